@@ -43,5 +43,11 @@ def replay(ctx, path):
         f = os.path.join(ctx.scratch, "one.ndjson"); open(f, "w").write(json.dumps(r["case"]) + "\n")
         out = os.path.join(ctx.scratch, "one_res.ndjson")
         ctx.vh_ok(["c16-replay", f, out]); run_results(ctx, out, "replay")
+    elif "event" in r and "chunks" in r["event"]:       # a Trace_Miss rejection: recompute the report from its chunk set on the current tree
+        f = os.path.join(ctx.scratch, "one_ev.ndjson"); open(f, "w").write(json.dumps(r["event"]) + "\n")
+        tr = os.path.join(ctx.scratch, "one_tr.ndjson")
+        ctx.vh_ok(["c16-regen", f, tr])
+        from checks.c01 import trace_validate
+        trace_validate(ctx, "Trace_Miss", tr, vlib.read_nd(tr, quoted=False), "replay", lambda inv, e: inv)
     else:
         ac.replay_session(ctx, r)
